@@ -110,7 +110,7 @@ def run_shard(desc):
             continue
         for orient in orients:
             for ii, ids in enumerate(idl):
-                d = dyn.build(topo, kt, orient, ids, (orient + ii) % n)
+                d = dyn.build(topo, kt, orient, ids, (orient + ii) % n, labels=(dyn.LABELS_LIKE_IDS[:n] if ii % 2 else None))
                 judge(d, res)
     return res
 
